@@ -10,6 +10,7 @@
    differs from NeedsArchive / NeedsArchiveE is a conformance failure on the named observable
    (GetExtensions()).  Every line is evaluated (the walk never stops); failures are printed as
    <<"BAD", line, kind>> and classified by checks/C32.py:
+     panic the real ParseMsg panicked / hung on a well-formed request (no marking at all)
      bind  the request did not parse to the block the vector asked for (binding problem, not a verdict)
      conf  ParseMsg marking # NeedsArchive
      rule  ExtensionParsing marking # NeedsArchiveE *)
@@ -22,8 +23,10 @@ BindOK(r) == LET o == r.out[1] IN ~o.err /\ ~o.panic /\ ~o.hang /\ o.lat = r.in.
 ConfOK(r) == r.out[1].arch = NeedsArchive(r.in.req, r.in.latest, r.in.rule, r.in.method)
 RuleOK(r) == LET o == r.out[2] IN ~o.panic /\ o.arch = NeedsArchiveE(r.in.req, r.in.latest, r.in.rule)
 
+Crashed(r) == r.out[1].panic \/ r.out[1].hang
 Report(i, r) ==
-  /\ BindOK(r) \/ PrintT(<<"BAD", i, "bind">>)
+  /\ (~Crashed(r)) \/ PrintT(<<"BAD", i, "panic">>)
+  /\ Crashed(r) \/ BindOK(r) \/ PrintT(<<"BAD", i, "bind">>)
   /\ (~BindOK(r)) \/ ConfOK(r) \/ PrintT(<<"BAD", i, "conf">>)
   /\ RuleOK(r) \/ PrintT(<<"BAD", i, "rule">>)
 
